@@ -295,7 +295,33 @@ func c07Paths(x *mc.Exec) {
 	x.Render(raw)
 	x.R.Mark("nontrivial", mc.Hash(raw, soft))
 	x.R.Sample(fmt.Sprintf("path-%d", n), raw)
-	c07Check(x, urlSchema(soft), raw, false)
+	c07CheckAll(x, urlSchema(soft), raw)
+}
+
+// c07CheckAll is c07Check with EVERY map loop of the parser (NewSimpleURL,
+// NewParams, NewURL and what they call) under explorer control.
+func c07CheckAll(x *mc.Exec, schema *j.Schema, raw string) {
+	var u *j.URL
+	var err error
+	var pmsg, site string
+	WithMapDev(x, func() { pmsg, site = TrySite(func() { u, err = j.NewURLFromRaw(schema, raw) }) })
+	x.R.Add("transitions", 1)
+	x.Observe(raw, pmsg, err != nil)
+	switch {
+	case pmsg != "":
+		x.Fail(fmt.Sprintf("C07:panic:%s:%s", site, Slug2(pmsg)), "NewURLFromRaw(%q) panicked in %s: %s", raw, site, pmsg)
+	case err != nil && u != nil:
+		x.Fail("C07:error-and-url", "NewURLFromRaw(%q) returned both a URL and an error (%v)", raw, err)
+	case err == nil && u == nil:
+		x.Fail("C07:neither", "NewURLFromRaw(%q) returned neither a URL nor an error", raw)
+	case err == nil:
+		var clause, msg string
+		if p := Try(func() { clause, msg = c07Judge(raw, u) }); p != "" {
+			x.Fail("C07:judge-panic", "inspecting the URL of %q panicked: %s", raw, p)
+		} else if clause != "" {
+			x.Fail("C07:"+clause, "NewURLFromRaw(%q) under map schedule %v: %s", raw, x.Choices(), msg)
+		}
+	}
 }
 
 // c07AfterEdits: "consistent with the schema" means the schema as it is NOW:
@@ -396,7 +422,7 @@ func init() {
 		Assumptions: []string{"a valid requested inclusion path must be kept unless another REQUESTED path (valid or not) extends it by a dotted prefix (weaker reading)", "multiplicity of repeated inclusion paths is not judged"},
 		Harnesses: []Harness{
 			{Name: "C07/query", Body: c07Query, Dev: func() int { return 1 }},
-			{Name: "C07/paths", Body: c07Paths},
+			{Name: "C07/paths", Body: c07Paths, Dev: func() int { return 1 }},
 			{Name: "C07/after-edits", Body: c07AfterEdits},
 		},
 	})
